@@ -267,6 +267,32 @@ func (cl *vfC19Cluster) census(key [16]byte, withIds bool) (locked int, nwait in
 	return
 }
 
+// twoManagers: diagnostic only (never a verdict): is the key reachable through
+// the fast slot AND through the slow map at the same time, by two different
+// live managers? (racy reads, confirmed by a second look)
+func (cl *vfC19Cluster) twoManagers(key [16]byte) bool {
+	db := cl.slock.dbs[0]
+	if db == nil {
+		return false
+	}
+	look := func() bool {
+		h := (uint32(key[0]) | uint32(key[1])<<8 | uint32(key[2])<<16 | uint32(key[3])<<24) ^ (uint32(key[4]) | uint32(key[5])<<8 | uint32(key[6])<<16 | uint32(key[7])<<24) ^ (uint32(key[8]) | uint32(key[9])<<8 | uint32(key[10])<<16 | uint32(key[11])<<24) ^ (uint32(key[12])<<24 | uint32(key[13])<<16 | uint32(key[14])<<8 | uint32(key[15]))
+		fv := &db.fastLocks[h%db.fastKeyCount]
+		if atomic.LoadUint32(&fv.lock) != 2 {
+			return false
+		}
+		fm := fv.manager
+		if fm == nil || fm.lockKey != key || atomic.LoadUint32(&fm.refCount) == 0xffffffff {
+			return false
+		}
+		db.mGlock.RLock()
+		sm := db.locks[key]
+		db.mGlock.RUnlock()
+		return sm != nil && sm != fm && atomic.LoadUint32(&sm.refCount) != 0xffffffff && sm.lockKey == key
+	}
+	return look() && look()
+}
+
 // ---------------------------------------------------------------- TCP proxy (forced reconnects)
 
 type vfC19Pair struct {
@@ -605,17 +631,19 @@ type vfC19Ev struct {
 	Q   []vfC19QEnt `json:"q,omitempty"`
 	W   int         `json:"w,omitempty"` // waiters seen queued by the census
 	Err string      `json:"err,omitempty"`
+	Us  int64       `json:"us"` // wall-clock microseconds since the recorder was made: for the reader of a replay file only, no oracle looks at it
 }
 
 type vfC19Rec struct {
 	g     int
 	clock *int64
 	evs   []vfC19Ev
+	t0    time.Time
 }
 
 func (r *vfC19Rec) add(k string, op int, key int, m int) *vfC19Ev {
 	t := atomic.AddInt64(r.clock, 1)
-	r.evs = append(r.evs, vfC19Ev{T: t, G: r.g, Op: op, K: k, Key: key, M: m})
+	r.evs = append(r.evs, vfC19Ev{T: t, G: r.g, Op: op, K: k, Key: key, M: m, Us: time.Since(r.t0).Microseconds()})
 	return &r.evs[len(r.evs)-1]
 }
 
@@ -625,6 +653,7 @@ const (
 	vfC19Fail      // the server answered with an error result
 	vfC19Transport // no answer (connection lost / client-side time-out): outcome unknown
 	vfC19NotSent   // the client had no connection: the request was never written
+	vfC19Mismatch  // a success that answers some other request
 )
 
 func vfC19Classify(res *protocol.LockResultCommand, err error) (cls int, code int, lid string, es string) {
@@ -680,6 +709,7 @@ type vfC19Run struct {
 	sumWaitSeen   int64
 	notSentRetry  int64
 	relErrors     int64
+	twoMgrSeen    int64
 	probeBusy     []int
 	probeDone     bool
 	harness       string
@@ -752,6 +782,12 @@ type vfC19Call func() (*protocol.LockResultCommand, error)
 // acquire performs one acquisition attempt (retrying while the client has no
 // connection, i.e. the request is never written) and records it.
 func (r *vfC19Run) acquire(rec *vfC19Rec, oi int, op *vfC19Op, kind string, call vfC19Call) (int, string) {
+	return r.acquireId(rec, oi, op, kind, nil, call)
+}
+
+// acquireId: as acquire; a success must be the answer to this request: it names
+// the requested key and (where the harness knows it) the lock id of the request.
+func (r *vfC19Run) acquireId(rec *vfC19Rec, oi int, op *vfC19Op, kind string, wantLid *[16]byte, call vfC19Call) (int, string) {
 	conn := rec.g % r.p.Conns
 	for try := 0; ; try++ {
 		atomic.AddInt32(&r.inAcqKey[op.Key], 1)
@@ -760,9 +796,15 @@ func (r *vfC19Run) acquire(rec *vfC19Rec, oi int, op *vfC19Op, kind string, call
 		res, err := call()
 		cls, code, lid, es := vfC19Classify(res, err)
 		var ev *vfC19Ev
+		if cls == vfC19Ok && res != nil && (res.LockKey != r.keys[op.Key] || (wantLid != nil && res.LockId != *wantLid)) {
+			cls = vfC19Mismatch
+		}
 		switch cls {
 		case vfC19Ok:
 			ev = rec.add(kind+"-ok", oi, op.Key, op.Mode)
+		case vfC19Mismatch:
+			ev = rec.add(kind+"-mismatch", oi, op.Key, op.Mode)
+			ev.Err = fmt.Sprintf("success reply names key %x lock id %x", res.LockKey, res.LockId)
 		case vfC19Fail:
 			ev = rec.add(kind+"-fail", oi, op.Key, op.Mode)
 			ev.Res = code
@@ -797,7 +839,10 @@ func (r *vfC19Run) release(rec *vfC19Rec, oi int, op *vfC19Op, kind string, retr
 		cls, code, _, es := vfC19Classify(res, err)
 		switch cls {
 		case vfC19Ok:
-			rec.add(kind+"-ok", oi, op.Key, op.Mode)
+			ev := rec.add(kind+"-ok", oi, op.Key, op.Mode)
+			if res != nil {
+				ev.Res = int(res.Result)
+			}
 			return cls
 		case vfC19Fail:
 			ev := rec.add(kind+"-fail", oi, op.Key, op.Mode)
@@ -849,7 +894,8 @@ func (r *vfC19Run) goroutine(g int, start chan struct{}, wg *sync.WaitGroup) {
 		switch p.Prim {
 		case "lock":
 			l := db.Lock(key, to, vfC19Expried)
-			if cls, _ := r.acquire(rec, oi, op, "acq", l.Lock); cls == vfC19Ok {
+			lid := l.GetLockId()
+			if cls, _ := r.acquireId(rec, oi, op, "acq", &lid, l.Lock); cls == vfC19Ok {
 				vfC19Hold(op)
 				n, _ := r.herd(op, false)
 				rec.add("census", oi, op.Key, 0).W = n
@@ -1109,9 +1155,9 @@ func vfC19RunCase(cl *vfC19Cluster, p *vfC19Params, keySalt int) *vfC19Run {
 		r.clients = append(r.clients, c)
 	}
 	for g := 0; g < p.G; g++ {
-		r.recs = append(r.recs, &vfC19Rec{g: g, clock: &r.clock})
+		r.recs = append(r.recs, &vfC19Rec{g: g, clock: &r.clock, t0: t0})
 	}
-	r.ctlRec = &vfC19Rec{g: -1, clock: &r.clock}
+	r.ctlRec = &vfC19Rec{g: -1, clock: &r.clock, t0: t0}
 	start := make(chan struct{})
 	done := make(chan struct{})
 	var wg sync.WaitGroup
@@ -1120,6 +1166,25 @@ func vfC19RunCase(cl *vfC19Cluster, p *vfC19Params, keySalt int) *vfC19Run {
 		go r.goroutine(g, start, &wg)
 	}
 	var cwg sync.WaitGroup
+	cwg.Add(1)
+	go func() { // diagnostic sampler: a key served by two lock managers at once
+		defer cwg.Done()
+		for {
+			select {
+			case <-done:
+				return
+			default:
+			}
+			for k := range r.keys {
+				if cl.twoManagers(r.keys[k]) {
+					if atomic.AddInt64(&r.twoMgrSeen, 1) == 1 {
+						r.ctlRec.add("two-managers", 0, k, 0)
+					}
+				}
+			}
+			time.Sleep(150 * time.Microsecond)
+		}
+	}()
 	if p.Reconnect != 0 {
 		cwg.Add(1)
 		go func() { defer cwg.Done(); r.chaos(done) }()
